@@ -12,9 +12,9 @@ def run(tier, rep):
     senv = dict(os.environ)
     senv['BXDECAY0_DBD_GA_DATA_DIR'] = gadir
     if tier == 'quick':
-        jobs = [('l1a', 2), ('l1b', 2), ('l1c', 2), ('l2a', 2), ('l2b', 2), ('l2c', 1), ('l3a', 2), ('l3b', 2), ('l3c', 1), ('l3d', 1), ('l3e', 1), ('l2e', 2), ('l3f', 1)]
+        jobs = [('l1a', 2), ('l1b', 2), ('l1c', 2), ('l2a', 2), ('l2b', 2), ('l2c', 1), ('l3a', 2), ('l3b', 2), ('l3c', 1), ('l3d', 1), ('l3e', 1), ('l2e', 2), ('l3f', 1), ('l4a', 2), ('l4b', 1)]
     else:
-        jobs = [('l1a', 4), ('l1b', 3), ('l1c', 4), ('l2a', 3), ('l2b', 3), ('l2c', 2), ('l2d', 2), ('l3a', 3), ('l3b', 3), ('l3c', 2), ('l3d', 2), ('l3e', 2), ('l2e', 3), ('l2f', 2), ('l3f', 2), ('l3g', 2)]
+        jobs = [('l1a', 4), ('l1b', 3), ('l1c', 4), ('l2a', 3), ('l2b', 3), ('l2c', 2), ('l2d', 2), ('l3a', 3), ('l3b', 3), ('l3c', 2), ('l3d', 2), ('l3e', 2), ('l2e', 3), ('l2f', 2), ('l3f', 2), ('l3g', 2), ('l4a', 3), ('l4b', 2), ('l4c', 2)]
 
     def one(j):
         h, b = j
@@ -82,7 +82,7 @@ def run(tier, rep):
         'rule': 'cooperative scheduler over interposed synchronisation points (gsl_set_error_handler_off / gsl_set_error_handler / gsl_integration_qng entry+exit / '
                 'pthread_mutex_lock+unlock, a waiting lock is blocked; every call of a libc function with hidden process-wide state - strtok, rand, localtime/gmtime/ctime/asctime, drand48 family, setlocale; in the L3 harnesses also every request to the user-provided deviate source) of the real library; every schedule up to the stated preemption bound is run in a forked child; '
                 'pruning by observable state (handler state, per-thread step counters, blocked set) per remaining budget; L1 = threads calling decay0_gauss (smooth '
-                'integrand / integrand that makes QNG return GSL_ETOL), L2 = whole generators (construct, configure, initialise, 2 shots; l2e/l2f: gA generators loading synthetic tables) compared with their sequential '
+                'integrand / integrand that makes QNG return GSL_ETOL), L4 = generators initialised by the parent thread, the workers only shoot; L2 = whole generators (construct, configure, initialise, 2 shots; l2e/l2f: gA generators loading synthetic tables) compared with their sequential '
                 'events; oracle: no signal, no deadlock, handler restored, sequential results. Plus a free-running ThreadSanitizer pass of 8 concurrent generators '
                 '(incl. gA modes, generators with their own direction-lock operations, concurrent resource look-ups and first-use of the plumbing entry points) for unsynchronised accesses the scheduler cannot see',
     })
